@@ -283,7 +283,7 @@ def layC : MkLayout :=
      (.bin (.atom ⟨.quoted 39, [32], [], [32], .spelled v_extra⟩) [32] [32]
        (.paren [] (.bin (.atom ⟨.spelled s_pfv, [32], [], [32], .quoted 34⟩) [32] [32]
                         (.atom ⟨.spelled v_extra, [32], [32], [32], .quoted 34⟩)) []))) [32]) [],
-   []⟩
+   [], false⟩
 
 example : WF exT layC := by decide +kernel
 example : SameGrouping layA.body layC.body := by decide +kernel
